@@ -8,6 +8,7 @@ Search: the same quantities recomputed from the flat token sequence of to_json()
 from .. import core, gen, schemas
 from ..codec import doc_tokens, from_units
 from ..core import outcome
+from . import c02_frag
 
 
 def ancestors_from_tokens(toks, pos):
@@ -67,7 +68,13 @@ def run(ctx):
 
     def flush():
         outs = ctx.driver.run(reqs) if reqs else []
-        for req, (op, replay, exp), out in zip(reqs, metas, outs):
+        for req, meta, out in zip(reqs, metas, outs):
+            if meta[0] == "fo":
+                # the Fragment-object accessors (c02_frag.py: child / maybe_child / first_child / last_child / find_index)
+                ctx.count("model_requests")
+                c02_frag.compare(ctx, meta, out)
+                continue
+            op, replay, exp = meta
             ctx.count("model_requests")
             ctx.count("op:" + op)
             if out.get("ok", out) != exp:
@@ -90,6 +97,9 @@ def run(ctx):
             toks = doc_tokens(d)
             size = d.content.size
             dj = info.node(d)
+            # the Fragment-object accessors on the content of this document's nodes (negative indices, both roundings of
+            # find_index, positions outside, a wrong stored size)
+            c02_frag.run_accessors(ctx, info, [d], reqs, metas)
             aligned = set(gen.aligned_positions(d))
             for pos in range(size + 1):
                 if pos not in aligned:
